@@ -319,6 +319,30 @@ def family_sibling_syn():
     return out
 
 
+def family_level_jump():
+    """the partition worker jumps from retry level 0 straight to level 2 (a message fails on A and again on B, the
+    level-1 chaser is long back), while a once-bounced message is still held in the retry handler and a fresh message
+    arrives in between: the parked levels must be flushed oldest first (bounced before fresh)"""
+    out = []
+    for rmax in (2, 3):
+        for extra in (0, 1):
+            cfg = dict(retryMax=rmax, leaders=[1], nbrokers=3, backoffMs=10)
+            gates = [{"name": "rh_hold", "point": "rh.deq", "flags": "", "retries": -1, "part": -1, "hwm": -1, "nth": 3},
+                     {"name": "parked", "point": "pp.recv", "flags": "none", "retries": 0, "part": -1, "hwm": 1}]
+            pl = {"1": {"hold": True, "part": {"0": "retry"}}, "2": {"hold": True, "part": {"0": "retry"}}}
+            steps = submits([(1, 0)]) + [{"op": "wait_req", "n": 1, "ms": 1500}, {"op": "move", "part": 0, "to": 2}, {"op": "release", "n": 1},
+                                         {"op": "wait_req", "n": 2, "ms": 2000}, {"op": "sleep", "ms": 60}]
+            # fresh messages join the buffer of B's worker behind the held request (level 0)
+            steps += submits([(2 + k, 0) for k in range(1 + extra)]) + [{"op": "sleep", "ms": 40}, {"op": "move", "part": 0, "to": 3},
+                                                                         {"op": "release", "n": 2}, {"op": "wait_gate", "name": "rh_hold"}]
+            f = 3 + extra
+            steps += submits([(f, 0)]) + [{"op": "wait_gate", "name": "parked"}, {"op": "release_gate", "name": "parked"}, {"op": "sleep", "ms": 20},
+                                          {"op": "release_gate", "name": "rh_hold"}, {"op": "wait_outcomes", "n": f, "ms": 4000}]
+            steps += submits([(f + 1, 0)]) + [{"op": "wait_outcomes", "n": f + 1, "ms": 3000}, {"op": "close"}]
+            out.append(sc("level-jump-r%d-x%d" % (rmax, extra), "gates", cfg, steps, pl, gates))
+    return out
+
+
 def family_idem_clean():
     """idempotent scenarios with a connection-level fault or an epoch bump in which the pinned tree behaves
     correctly (one batch in flight, nothing else sequenced): violations here are NOT covered by the
@@ -559,9 +583,9 @@ def run_scenarios(ctx, scenarios, name="prod", shards=8, timeout=1500):
             drs = ctx.tlc_trace("PpConfTrace", "PpConfTrace.cfg", itrace, shards=4, name="ppconf-" + name)
             nd, pst = 0, {}
             for r in drs:
-                for lst in r.printed("DRIFT"):
+                for lst in r.printed("DRIFT")[:1]:
                     nd += len(lst)
-                for d in r.printed("STATS"):
+                for d in r.printed("STATS")[:1]:
                     for k, v in d.items():
                         pst[k] = pst.get(k, 0) + v
             stats["ppconf"] = dict(pst, drift_events=nd)
